@@ -59,6 +59,7 @@ def runs(tier):
 
 def gen_scenario(rng, i):
     kind = 'layout' if rng.random() < 0.35 else 'csv'
+    leftover = False
     b = bm.gen_budget(rng, 'migrate')
     pre = {}
     tty = {'stdin': False, 'stdout': False, 'answers': []}
@@ -77,6 +78,7 @@ def gen_scenario(rng, i):
             b['bystanders'] = {base + k if not k.startswith(base) else k: v for k, v in b['bystanders'].items()}
         files = bm.render_budget(b, rng)
         cfg = base + 'config'
+        extra_s = []
         cfg_arg = [cfg] if rng.random() < 0.7 else []      # explicit argument, or found from the working directory
         verb = 'up' if rng.random() < 0.85 else 'run'      # `run` is the deprecated alias
         if variant == 'up-migrate':
@@ -107,7 +109,21 @@ def gen_scenario(rng, i):
         if rng.random() < 0.2:
             # a settings file edited on Windows: CRLF line endings (the user's bytes must survive as a prefix)
             files[sp] = files[sp].replace('\n', '\r\n')
-        obs = {'argv': ['up', cfg, '--format', 'json', '-v'], 'cwd': '.'}
+        r = rng.random()
+        if r < 0.07:
+            # the key is there but has no value yet
+            files[sp] = files[sp].rstrip('\r\n') + rng.choice(['\nmerchants_file:\n', '\nmerchants_file: null\n', '\nmerchants_file: ""\n', '\nmerchants_file:   # todo\n'])
+        elif r < 0.17 and variant != 'init' and not base:
+            # the budget is run with another settings file (-s): that is the file the migration has to point at the new rules
+            alt = 'settings-alt.yaml'
+            files[cfg + '/' + alt] = files[sp]
+            if rng.random() < 0.5:
+                files[sp] = 'year: 2020\ndata_sources: []\n'
+            extra_s = ['-s', alt]
+        leftover = variant != 'init' and not pre and rng.random() < 0.12
+        obs = {'argv': ['up', cfg, '--format', 'json', '-v'] + extra_s, 'cwd': '.'}
+        if extra_s:
+            argv = argv + extra_s
         cls = 'csv-init' if variant == 'init' else 'csv-up'
     else:
         # folder-layout migration: old layout at the world root, command run from there
@@ -149,6 +165,7 @@ def gen_scenario(rng, i):
             snap[r_] = c.encode('utf-8')
     return {
         'class': cls,
+        'leftover_edited': bool(kind == 'csv' and leftover),
         'world': util.snap_to_json(snap),
         'cmd': {'argv': argv, 'cwd': cwd, 'tty': tty, 'net': net,
                 'today': rng.choice(['2025-06-15', '2024-12-31', '2025-01-01', '2024-02-29', '2026-10-04'])},
@@ -225,8 +242,10 @@ def lost_content(s0, sf):
             continue
         if c in have:
             continue
-        if r.endswith('settings.yaml'):
-            if any(c2 is not None and c2.startswith(c) and r2.endswith('settings.yaml') for r2, c2 in sf.items()):
+        bn = os.path.basename(r)
+        if bn.startswith('settings') and bn.endswith('.yaml'):
+            # a settings file may only have grown: its old bytes are a prefix of a settings file of the same name
+            if any(c2 is not None and c2.startswith(c) and os.path.basename(r2) == bn for r2, c2 in sf.items()):
                 continue
         lost.append(r)
     return lost
@@ -483,6 +502,21 @@ def run_one(seed, i, tier, scratch):
     ctlp = os.path.join(scratch, 'ctl')
     s0 = util.snap_from_json(scn['world'])
     try:
+        if scn.get('leftover_edited'):
+            # the state an interrupted earlier run plus a user edit leaves behind: merchants.rules as the migration writes
+            # it (asked from the converter itself), with a hand-added rule, while the budget still runs on the CSV
+            cfg_ = base_cfg_of(scn)
+            util.restore(root, s0)
+
+            def conv():
+                from tally.merchant_engine import csv_to_merchants_content
+                from tally.merchant_utils import load_merchant_rules
+                return csv_to_merchants_content(load_merchant_rules(os.path.join(root, cfg_, 'merchant_categories.csv')))
+            rr = proc.run_func(root, conv, {'net': 'down'}, ctl_parent=ctlp)
+            if rr.exit == 0 and isinstance(rr.result, str):
+                s0[cfg_ + '/merchants.rules'] = (rr.result + '\n[Corner Cafe]\nmatch: contains("CORNER")\ncategory: Food\nsubcategory: Cafe\n').encode('utf-8')
+                scn = dict(scn, world=util.snap_to_json(s0), leftover_edited=False)
+                log.append(['leftover-edited', util.digest(scn['world'])])
         s0 = util.restore(root, s0)
         b0, _ = observe(root, ctlp, scn['obs'])
         count['sim_processes'] += 1
